@@ -46,6 +46,8 @@ type srvOpts struct {
 	DBPath    string // reuse an existing database
 	Methods   map[string][]string
 	NowOffset func() time.Duration // server clock = time.Now() + NowOffset()
+	// RedirNoPort: RedirAddr is given without a port (the port the peer connected to is used)
+	RedirNoPort bool
 }
 
 type srvRig struct {
@@ -65,6 +67,8 @@ type srvRig struct {
 	clientsStopped bool
 	nowHook        func() // called on every read of the server's clock (used to hold a particular caller)
 	proxyDials     []string
+	hsWindow       int      // window of the pipes componentHandshake creates (0 = unbounded)
+	hsPipe         *vk.Pipe // the pipe of the last componentHandshake
 	redirDials     []string
 }
 
@@ -122,6 +126,9 @@ func newSrvRig(t *testing.T, o srvOpts) *srvRig {
 		methods = map[string][]string{"shadowsocks": {"tcp", "10.0.0.1:1111"}, "openvpn": {"udp", "10.0.0.2:2222"}, "m": {"tcp", "10.0.0.4:4444"}, "abcdefghijkl": {"tcp", "10.0.0.5:5555"}}
 	}
 	raw := RawConfig{ProxyBook: methods, BypassUID: o.Bypass, RedirAddr: "10.0.0.3:80", PrivateKey: g.pv[:], AdminUID: o.AdminUID, KeepAlive: 0}
+	if o.RedirNoPort {
+		raw.RedirAddr = "10.0.0.3"
+	}
 	if o.DB || o.DBPath != "" {
 		g.dbPath = o.DBPath
 		if g.dbPath == "" {
@@ -209,6 +216,7 @@ type cliCfg struct {
 	Transport  string
 	ServerName string
 	Offset     time.Duration // client clock = time.Now() + Offset
+	AbsNow     *time.Time    // when set: the client clock is stuck at this instant (any year)
 	SessionID  uint32
 }
 
@@ -220,6 +228,10 @@ func (g *srvRig) clientConfigs(c cliCfg) (client.LocalConnConfig, client.RemoteC
 	}
 	off := c.Offset
 	ws := common.WorldState{Rand: rand.Reader, Now: func() time.Time { return time.Now().Add(off) }}
+	if c.AbsNow != nil {
+		abs := *c.AbsNow
+		ws.Now = func() time.Time { return abs }
+	}
 	l, r, a, err := raw.ProcessRawConfig(ws)
 	a.SessionId = c.SessionID
 	return l, r, a, err
